@@ -9,6 +9,7 @@ import os
 import time
 
 from . import common as C
+from . import c17_borrow
 
 W = 2 ** 32
 SQPOLL, SQE128, CQE32 = 2, 1 << 10, 1 << 11
@@ -285,7 +286,11 @@ def run(ctx):
         "released by the NEXT call, so the entry may be read at any later moment before that (cq_content_held, op `h` of the correspondence)",
         "ring_entries is a power of two and ring_mask = ring_entries-1, as io_uring_setup guarantees",
     ]
+    ctx.trusted.append("rustc's borrow checker as the judge of the compile-contract probes (harness/c17/borrow-probes)")
     ctx.trusted.append("simulated kernel side of harness/c17 (40 lines; its behaviour is itself checked by the oracle) and the hook constructor")
+    # the API borrow contracts the completion-side theorems assume (type system, not behaviour): compile-contract probes; the
+    # outcome becomes Gen/RingBorrow.lean, an input of the Lean build (borrow_contract_holds)
+    c17_borrow.probe(ctx)
     ok = C.lean_prove(ctx, "TinyVerif.Props.C17", drivers=["drv_c17"])
     quick = ctx.tier == "quick"
     cases = directed_cases() + gen_cases(ctx, 20000 if quick else 300000, 48 if quick else 160)
